@@ -2,5 +2,5 @@
 from checks import seqcheck
 
 def main(tier, seed, replay):
-    return seqcheck.main("C17", "Properties/C17.v", tier, seed, replay, scenarios=['pool','clock','pool','basic'],
+    return seqcheck.main("C17", "Properties/C17.v", tier, seed, replay, scenarios=['pool','clock','pool','basic','midround'],
                          own_prefixes=tuple("C17".split(",")), known_prefixes=("C06-stale-upload",) if "C17" == "C06" else ())
